@@ -72,6 +72,24 @@ def shape_case(rng, shape, k, mode, dll='j1939-21'):
                 bad.append(f"connection abort with reason {d[1]} instead of 3 (timeout)")
             if d[5:8] != [0, 0xD0, 0]:
                 bad.append(f"connection abort carries PGN bytes {d[5:8]}")
+    if not bam and not bad:
+        # a connection-mode originator ends its session in one of three ways: the acknowledgement reached it, the
+        # responder's abort reached it, or it says so itself with a connection abort
+        def reached0(n, src):
+            if src == 0:
+                return False
+            if mode == 'lose':
+                return n != k
+            return not (n >= k and (silent['who'] in (0, src)))
+        acked = any(reached0(n, s_) and ((((cid >> 16) & 0xFF) == TP_CM and d and d[0] == 19) or (((cid >> 16) & 0xFF) == 0x4D and d and d[0] & 15 == 3))
+                    for n, (t, s_, cid, d, fd_) in enumerate(sc.net.bus))
+        told = any(reached0(n, s_) and is_abort(cid, d) for n, (t, s_, cid, d, fd_) in enumerate(sc.net.bus))
+        own_abort = any(s_ == 0 and is_abort(cid, d) for (t, s_, cid, d, fd_) in sc.net.bus)
+        # J1939-22: after its end-of-message status the originator only waits for the acknowledgement (T5) — the property
+        # asks for an abort when it stops waiting for a CTS, not there
+        sent_eoms = any(s_ == 0 and ((cid >> 16) & 0xFF) == 0x4D and d and d[0] & 15 == 2 for (t, s_, cid, d, fd_) in sc.net.bus)
+        if not (acked or told or own_abort or sent_eoms):
+            bad.append("the originator stopped waiting for a CTS and dropped its connection-mode session without any connection abort on the bus")
     if sc.net.errors:
         bad.append(f"exception {sc.net.errors[0]}")
     # follow-up on the same pair
